@@ -64,6 +64,8 @@ pub struct PropDef {
 	pub assumptions: &'static [&'static str],
 	/// extra setup performed once per worker (e.g. self tests of the model)
 	pub self_test: Option<fn() -> Result<(), String>>,
+	/// called at the end of a worker to export property-specific global counters
+	pub finish: Option<fn(&mut BTreeMap<String, u64>)>,
 }
 
 // ---------------------------------------------------------------------------
@@ -396,6 +398,9 @@ pub fn run_worker(def: &PropDef, tier: &str, seed: u64, shard: u64, nshards: u64
 	}
 	drop(stats_cell);
 	drop(inflight_cell);
+	if let Some(f) = def.finish {
+		f(&mut stats.counters);
+	}
 	let _ = std::fs::write(out, serde_json::to_string(&stats.to_json()).unwrap());
 	0
 }
@@ -637,6 +642,13 @@ pub fn write_evidence(def: &PropDef, tier: &str, seed: u64, m: &Merged, violatio
 	if samples.is_empty() {
 		samples.push(serde_json::json!("no sample captured"));
 	}
+	let table_idx = m.counters.keys().filter(|k| k.starts_with("crc_table_index_")).count();
+	let mut counters = m.counters.clone();
+	if table_idx > 0 {
+		counters.retain(|k, _| !k.starts_with("crc_table_index_"));
+		counters.insert("table_indices_covered".into(), table_idx as u64);
+		counters.insert("table_index_min_hits".into(), m.counters.iter().filter(|(k, _)| k.starts_with("crc_table_index_")).map(|(_, v)| *v).min().unwrap_or(0));
+	}
 	let ev = serde_json::json!({
 		"property_id": def.id,
 		"tier": tier,
@@ -650,7 +662,7 @@ pub fn write_evidence(def: &PropDef, tier: &str, seed: u64, m: &Merged, violatio
 			"samples": samples,
 			"replayed_corpus_tapes": m.replayed,
 			"label_histogram": m.labels,
-			"counters": m.counters,
+			"counters": counters,
 			"known_finding_hits": m.known_hits,
 			"engine": "proptest TestRunner over entropy tapes (vec<u8>), fixed rng seed; corpus replay first",
 		},
